@@ -93,6 +93,18 @@ def repeat_fresh_own_logger(cfg):
     return once
 
 
+def repeat_fresh_traced(cfg):
+    """fresh Pipeline objects, each traced by a JSONL driver of its own (one trace file per run)"""
+    from semantiva.trace.drivers.jsonl import JsonlTraceDriver
+    counter = [0]
+
+    def once():
+        counter[0] += 1
+        drv = JsonlTraceDriver(str(tmp / f"traced_{counter[0]}.ser.jsonl"))
+        Pipeline(cfg, trace=drv).process(Payload(NoDataType(), ContextType({})))
+    return once
+
+
 def repeat_queue_relaunch(cfg):
     """a queue master + worker started again in the same interpreter with default loggers; one launch = one job"""
     import os
@@ -151,7 +163,7 @@ def grows(name, way, series, runs):
 
 
 for name, cfg in PIPES.items():
-    for way in ("reused-pipeline", "fresh-pipelines", "run-space-launch", "queue-worker") + (("fresh-pipelines+own-logger", "queue-relaunch") if name == "plain" else ()):
+    for way in ("reused-pipeline", "fresh-pipelines", "run-space-launch", "queue-worker") + (("fresh-pipelines+own-logger", "fresh-pipelines+own-trace-driver", "queue-relaunch") if name == "plain" else ()):
         evaluations += 1
         distinct.add((name, way))
         try:
@@ -164,7 +176,8 @@ for name, cfg in PIPES.items():
                     series.append((n, measure()))
             else:
                 once = {"reused-pipeline": repeat_reused, "fresh-pipelines": repeat_fresh, "queue-worker": repeat_worker,
-                        "fresh-pipelines+own-logger": repeat_fresh_own_logger, "queue-relaunch": repeat_queue_relaunch}[way](cfg)
+                        "fresh-pipelines+own-logger": repeat_fresh_own_logger, "fresh-pipelines+own-trace-driver": repeat_fresh_traced,
+                        "queue-relaunch": repeat_queue_relaunch}[way](cfg)
                 for _ in range(3):
                     once()                          # warm-up
                 series = [(0, measure())]
@@ -257,7 +270,7 @@ except Exception as e:       # noqa
 
 import shutil
 shutil.rmtree(tmp, ignore_errors=True)
-print(json.dumps({"bound": "4 pipelines x {reused Pipeline, fresh Pipelines, run-space launch via CLI, queue worker} x N in %s after warm-up; failing jobs through a queue worker (pending / live futures) N in [10, 30]" % (list(NS),),
+print(json.dumps({"bound": "4 pipelines x {reused Pipeline, fresh Pipelines, run-space launch via CLI, queue worker} x N in %s after warm-up; fresh Pipelines each with a JSONL trace driver of its own; failing jobs through a queue worker (pending / live futures) N in [10, 30]" % (list(NS),),
                   "evaluations": evaluations, "distinct_nontrivial": len(distinct),
                   "rule": "distinct = (pipeline, way of repeating); growth = registered component classes / live component classes / logger handlers strictly increasing with N, gc-tracked objects increasing by more than 400 per step",
                   "failures": failures[:60], "samples": samples}, default=str))
